@@ -1,8 +1,54 @@
 import Solvor.Common.Proto
 import Solvor.Flow.Model
-/-! Flow: line-protocol handler. One request line in, one reply line out. -/
-namespace Solvor.Flow
+/-! Flow: line-protocol handler. One request line in, one reply line out.
 
-def handle (line : String) : String := "unimplemented " ++ line
+request `["maxflow", n, arcs, s, t, implFlow|null, implObjective|null]`
+  nodes are `0..n-1`; arcs = `[[u, v, cap], …]` in the iteration order of the `graph` argument;
+  implFlow = `[[u, v, x], …]` the implementation's returned dict
+reply `[value, flow, vis, augs, cancels, done, modelCert, implChecks|null]`
+  value/flow/vis/augs : the mirror `Net.maxFlow` (flow = positive entries `[u, v, x]`)
+  modelCert           : verified checker `chkMaxFlow` on the mirror's own flow and cut
+  implChecks          : `[keys, cap, cons, value, cut]` – the verified checker's clauses on the
+                        implementation's flow, its objective, and the *mirror's* cut
+-/
+namespace Solvor.Flow
+open Solvor.Proto
+
+def toArcs? (v : Val) : Option Arcs := do
+  let rows ← v.toIntss?
+  rows.mapM fun r =>
+    match r with
+    | [a, b, c] => if a < 0 || b < 0 then none else some (a.toNat, b.toNat, c)
+    | _ => none
+
+def toFlowT? (v : Val) : Option FlowT := do
+  let rows ← v.toIntss?
+  rows.mapM fun r =>
+    match r with
+    | [a, b, c] => if a < 0 || b < 0 then none else some ((a.toNat, b.toNat), c)
+    | _ => none
+
+def ofTriples (l : List (Nat × Nat × Int)) : Val :=
+  Val.arr (l.map fun e => Val.arr [Val.int e.1, Val.int e.2.1, Val.int e.2.2])
+
+def handleMaxFlow (n : Nat) (arcs : Arcs) (s t : Nat) (impl : Option FlowT) (obj : Option Int) : String :=
+  let N := Net.ofArcs true n arcs s t
+  let o := N.maxFlow
+  let implChecks : Val :=
+    match impl, obj with
+    | some f, some val =>
+      Val.arr [Val.bool (N.chkKeys f), Val.bool (N.chkCap f), Val.bool (N.chkCons f),
+        Val.bool (N.chkValue f val), Val.bool (N.chkCut f o.vis)]
+    | _, _ => Val.null
+  (Val.arr [Val.int o.value, ofTriples o.flow.positive, Val.ofNats o.vis, Val.int o.augs,
+    Val.int o.cancels, Val.bool o.done, Val.bool (N.chkMaxFlow o.flow o.vis o.value), implChecks]).render
+
+def handle (line : String) : String :=
+  match request line with
+  | some ("maxflow", [n, arcs, s, t, impl, obj]) =>
+    match n.toNat?, toArcs? arcs, s.toNat?, t.toNat?, impl.toOpt? toFlowT?, obj.toOpt? Val.toInt? with
+    | some n, some arcs, some s, some t, some impl, some obj => handleMaxFlow n arcs s t impl obj
+    | _, _, _, _, _, _ => err "bad arguments"
+  | _ => err "bad request"
 
 end Solvor.Flow
